@@ -976,22 +976,34 @@ fn run_mv(cx: &mut Ctx, es: usize, ic: usize, growth: f64, sow: bool, ops: &[Vec
 }
 
 // ------------------------------------------------------------------ PlainBlobStore
-// ops: [0, hex] put | [1, k] remove the k-th live id | [2] drop and open the directory again
-fn plain_case(cx: &mut Ctx, ops: &[Value], exhaustive: bool) {
+// ops: [0, hex] put | [1, k] remove the k-th live id | [2] drop and open the directory again | [3, id] remove an id that holds no record
+// leftover > 0: temporary files `.1.tmp` .. `.6.tmp` of that many bytes exist before the history starts (what interrupted
+// puts leave behind); a later put with that id must publish exactly its own data
+fn plain_case(cx: &mut Ctx, ops: &[Value], leftover: usize, exhaustive: bool) {
     let cell = "PlainBlobStore";
-    let cj = json!({"cell": "plain", "ops": ops, "exhaustive": exhaustive});
+    let cj = json!({"cell": "plain", "ops": ops, "leftover": leftover, "exhaustive": exhaustive});
     dbg_case(&cj);
     cx.sum.eval(cell, &cj.to_string(), ops.len() >= 2);
-    cx.sum.cell_status(cell, "S-only");
+    cx.sum.cell_status(cell, "M+S");
     let mut r = Rng::new(fnv64(cj.to_string().as_bytes(), 11));
     let dir = cx.fresh_dir("pl");
     let sdir = format!("{}/store", dir);
     std::fs::create_dir_all(&sdir).unwrap();
+    let mut init = Disk::new();
+    if leftover > 0 {
+        for id in 1..=6u32 {
+            let g: Vec<u8> = (0..leftover).map(|i| 0xA0u8.wrapping_add((i as u8).wrapping_mul(7)).wrapping_add(id as u8)).collect();
+            std::fs::write(format!("{}/.{}.tmp", sdir, id), &g).unwrap();
+            init.insert(format!("store/.{}.tmp", id), g);
+        }
+    }
     let mut shadow: BTreeMap<u32, Vec<u8>> = BTreeMap::new();
     let st_json = |m: &BTreeMap<u32, Vec<u8>>| { let mut o = serde_json::Map::new(); for (k, v) in m { o.insert(k.to_string(), json!(hex(v))); } json!({"records": Value::Object(o)}) };
     let mut states = vec![]; let mut marks = vec![];
     let mut problem: Option<String> = None;
     let mut put_segs: Vec<(usize, usize, u32)> = vec![];
+    let mut hops: Vec<String> = vec![];       // the history as the model's phop list
+    let mut volume = 0usize;
     trace::start(&dir);
     let res = guarded(|| {
         let mut st = match PlainBlobStore::new(&sdir) { Ok(s) => s, Err(e) => { problem = Some(e.to_string()); return; } };
@@ -1000,31 +1012,49 @@ fn plain_case(cx: &mut Ctx, ops: &[Value], exhaustive: bool) {
             match op[0].as_u64().unwrap_or(9) {
                 0 => { let data = unhex(op[1].as_str().unwrap_or(""));
                        let t0 = trace::len();
+                       hops.push(format!("HPut {}", coq_bytes(&data))); volume += data.len();
                        match st.put(&data) { Ok(id) => { put_segs.push((t0, trace::len(), id)); if shadow.contains_key(&id) { problem = Some(format!("op {}: put reused live id {}", k, id)); return; } shadow.insert(id, data); }
                                              Err(e) => { problem = Some(format!("op {}: put failed: {}", k, e)); return; } } }
                 1 => { let ids: Vec<u32> = shadow.keys().copied().collect();
                        if !ids.is_empty() { let id = ids[op[1].as_u64().unwrap_or(0) as usize % ids.len()];
+                           hops.push(format!("HRemove {}", id));
                            if let Err(e) = st.remove(id) { problem = Some(format!("op {}: remove failed: {}", k, e)); return; } shadow.remove(&id); } }
-                2 => { drop(st); st = match PlainBlobStore::new(&sdir) { Ok(s) => s, Err(e) => { problem = Some(e.to_string()); return; } }; }
+                2 => { hops.push("HReopen".into()); drop(st); st = match PlainBlobStore::new(&sdir) { Ok(s) => s, Err(e) => { problem = Some(e.to_string()); return; } }; }
+                3 => { let id = op[1].as_u64().unwrap_or(0) as u32;
+                       if !shadow.contains_key(&id) { hops.push(format!("HRemove {}", id)); if st.remove(id).is_ok() { problem = Some(format!("op {}: remove of the absent id {} succeeded", k, id)); return; } } }
                 _ => {}
             }
-            for (id, d) in &shadow { if st.get(*id).ok().as_ref() != Some(d) { problem = Some(format!("op {}: live store does not return record {}", k, id)); return; } }
+            for (id, d) in &shadow { if st.get(*id).ok().as_ref() != Some(d) { problem = Some(format!("op {}: live store does not return record {} as it was put ({} bytes, got {:?} bytes)", k, id, d.len(), st.get(*id).ok().map(|x| x.len()))); return; } }
             states.push(st_json(&shadow)); marks.push(trace::len());
         }
     });
     let tr = trace::stop();
     if let Err(p) = res { problem = Some(format!("writer panicked: {}", p)); }
     if let Some(p) = problem { cx.sum.fail(cell, None, cj, &p); return; }
-    let mut sim = Disk::new();
+    let mut sim = init.clone();
     for op in &tr { apply(&mut sim, op); }
     if let Err(w) = tracer_in_sync(&dir, &sim) { panic!("C19 tracer out of sync with the file system:{}", w); }
     // an arbitrary cut of a finished, fsynced record file is not detectable in a format without framing
     let class_of = |out: &Value, kind: &str, _why: &str| -> Option<&'static str> {
-        if kind.starts_with("truncate:") && out.get("ok").is_some() { Some("plain_record_unframed") } else { None }
+        if kind.starts_with("truncate:") && !kind.contains(".tmp@") && out.get("ok").is_some() { Some("plain_record_unframed") } else { None }
     };
     for (a, b, id) in put_segs { if b <= tr.len() && a < b { protocol_case(cx, &tr[a..b], &format!("store/{}", id), "PlainBlobStore::put"); } }
+    // the whole history refined to named file operations by the model (ids from the model's counter and rescan)
+    if volume <= 2500 && cx.n_plain < if cx.thorough { 500 } else { 48 } && cx.coq_seen.insert(fnv64(cj.to_string().as_bytes(), 0x706c)) {
+        let name = |p: &str| coq_bytes(p.strip_prefix("store/").unwrap_or(p).as_bytes());
+        let terms: Vec<String> = tr.iter().map(|o| match o {
+            Op::Open { p, creat, trunc } => format!("NOpen {} {} {}", name(p), coq_bool(*creat), coq_bool(*trunc)),
+            Op::SetLen { p, n } => format!("NSetLen {} {}", name(p), n),
+            Op::Write { p, off, data } => format!("NWrite {} {} {}", name(p), off, coq_bytes(data)),
+            Op::Fsync { p } => format!("NFsync {}", name(p)),
+            Op::Rename { a, b } => format!("NRename {} {}", name(a), name(b)),
+            Op::Unlink { p } => format!("NUnlink {}", name(p)),
+        }).collect();
+        cx.n_plain += 1;
+        cx.shards.push(format!("(XPlainHist [{}] [{}])", hops.join("; "), terms.join("; ")), json!({"cell": "plain_history", "ops": ops, "leftover": leftover}));
+    }
     let fin_state = states.last().cloned();
-    judge_trace(cx, cell, "plain", &class_of, &cj, &json!({}), "store", true, &tr, &marks, &states, fin_state.as_ref(), &[], &mut r, exhaustive, None);
+    judge_trace_from(cx, &init, cell, "plain", &class_of, &cj, &json!({}), "store", true, &tr, &marks, &states, fin_state.as_ref(), &[], &mut r, exhaustive, None);
     let _ = std::fs::remove_dir_all(&dir);
 }
 fn gen_plain(r: &mut Rng) -> Vec<Value> {
@@ -1033,7 +1063,8 @@ fn gen_plain(r: &mut Rng) -> Vec<Value> {
     for _ in 0..n {
         match r.below(8) {
             0..=4 => { let len = *r.pick(&[0usize, 1, 2, 5, 17, 100, 4095, 4096, 4097, 9000]); let len = if r.chance(1, 2) { len.min(40) } else { len }; ops.push(json!([0, hex(&r.bytes(len))])); }
-            5..=6 => ops.push(json!([1, r.below(8)])),
+            5 => ops.push(json!([1, r.below(8)])),
+            6 => if r.chance(1, 3) { ops.push(json!([3, *r.pick(&[0u64, 1, 2, 5, 4294967295])])) } else { ops.push(json!([1, r.below(8)])) },
             _ => ops.push(json!([2])),
         }
     }
@@ -1334,7 +1365,7 @@ fn run_one(cx: &mut Ctx, c: &Value) {
         }
         Some("mmapvec_image") => { let im = unhex(c["image"].as_str().unwrap_or("")); cx.coq_seen.clear(); mv_coq_case(cx, c["es"].as_u64().unwrap_or(8) as usize, &im); }
         Some("reorder_image") => { let im = unhex(c["image"].as_str().unwrap_or("")); cx.coq_seen.clear(); reorder_coq_case(cx, &im); }
-        Some("plain") => plain_case(cx, c["ops"].as_array().map(|a| a.as_slice()).unwrap_or(&[]), ex),
+        Some("plain") | Some("plain_history") => plain_case(cx, c["ops"].as_array().map(|a| a.as_slice()).unwrap_or(&[]), c["leftover"].as_u64().unwrap_or(0) as usize, ex),
         Some("reorder") | Some("reorder_encode") | Some("reorder_writes") => {
             let b = if c.get("builds").is_some() { c["builds"].as_array().cloned().unwrap_or_default() } else { vec![json!({"values": c["values"], "neg": c["neg"]})] };
             reorder_case(cx, &b, ex)
@@ -1425,7 +1456,7 @@ pub fn run(args: &Args) {
         for _ in 0..(1 * scale) {
             // every byte position: keep the records small
             let o: Vec<Value> = gen_plain(&mut rng).into_iter().map(|mut op| { if op[0] == json!(0) { let h = op[1].as_str().unwrap_or("").to_string(); op[1] = json!(h[..h.len().min(120)].to_string()); } op }).collect();
-            plain_case(&mut cx, &o, true);
+            plain_case(&mut cx, &o, 0, true);
         }
         // boundary-biased sampling on many
         for i in 0..(120 * scale) {
@@ -1454,7 +1485,8 @@ pub fn run(args: &Args) {
         for i in 0..(40 * scale) {
             let o = gen_plain(&mut rng);
             if i == 0 { cx.sum.sample(json!({"plain": o})); }
-            plain_case(&mut cx, &o, false);
+            let leftover = if i % 3 == 1 { *rng.pick(&[1usize, 7, 50, 200, 5000]) } else { 0 };
+            plain_case(&mut cx, &o, leftover, false);
         }
         for i in 0..(22 * scale) {
             let (recs, ck) = gen_zip(&mut rng, i as usize);
